@@ -216,6 +216,30 @@ def separate_conductors(rng, k=2, level=0):
     return dict(meshes=meshes, interfaces=interfaces, domains=domains, cond=cond,
                 info=dict(kind="separate", topology="separate", objects=objs, centre=(0, 0, 0), outer_radius=4.0))
 
+def capped_nested(radii, sigmas, level=1, capped=None, rng=None):
+    """nested spheres in which some interfaces are stored as TWO meshes (north and south caps sharing the equator ring):
+    the two caps of an interface separate the same two domains.  capped = indices of the interfaces stored that way"""
+    import models
+    n = len(radii); vo, to = models.octasphere(level); vi, ti = models.icosphere(max(level - 1, 0) if level > 1 else 1)
+    capped = set(range(n)) if capped is None else set(capped)
+    eps = 1e-12
+    vn, tn = models.submesh(vo, to, lambda t: all(vo[a][2] >= -eps for a in t))
+    vs_, ts_ = models.submesh(vo, to, lambda t: all(vo[a][2] <= eps for a in t))
+    meshes = []; interfaces = []; domains = []; cond = {}
+    for k, r in enumerate(radii):
+        if k in capped:
+            parts = [("n%d" % k, models.transform(vn, r), list(tn)), ("s%d" % k, models.transform(vs_, r), list(ts_))]
+            if rng is not None and rng.random() < 0.5: parts.reverse()
+            meshes += parts; interfaces.append(("I%d" % k, [(+1, parts[0][0]), (+1, parts[1][0])]))
+        else:
+            meshes.append(("m%d" % k, models.transform(vi, r), list(ti))); interfaces.append(("I%d" % k, [(+1, "m%d" % k)]))
+        b = [(-1, "I%d" % k)] + ([(+1, "I%d" % (k - 1))] if k > 0 else [])
+        domains.append(("D%d" % k, b)); cond["D%d" % k] = sigmas[k]
+    domains.append(("Air", [(+1, "I%d" % (n - 1))])); cond["Air"] = 0.0
+    return dict(meshes=meshes, interfaces=interfaces, domains=domains, cond=cond,
+                info=dict(kind="nested", topology="capped", radii=list(radii), centre=(0, 0, 0), axes=(1, 1, 1), level=level,
+                          inner="D0", outer_radius=radii[-1], capped=sorted(capped)))
+
 # ------------------------------------------------------------------ probes
 def probe_points(m, rng, n, margin=0.04):
     """random points of the bounding box (slightly enlarged) farther than `margin` (relative to the box size)
